@@ -33,255 +33,19 @@ import (
 	"io"
 	"log/slog"
 	"math/rand"
-	"net"
 	"net/http"
 	"net/http/httptest"
 	"os"
 	"strconv"
 	"strings"
-	"sync"
 	"sync/atomic"
 	"testing"
 	"time"
 
 	"github.com/KafScale/platform/internal/verifkit"
-	"github.com/KafScale/platform/internal/verifkit/kbatch"
-	"github.com/twmb/franz-go/pkg/kmsg"
 )
 
 const c32MiB = 1 << 20
-
-// ---------------------------------------------------------------------------
-// scripted broker
-// ---------------------------------------------------------------------------
-
-type c32Produce struct {
-	Topic      string
-	Partition  int32
-	Values     [][]byte // record values of that partition, decoded with the reference codec
-	DecodeErr  string   // non-empty: the request was not a well-formed produce
-	ReplyKind  string   // what the broker answered: ok | code | no_partition | other_partition | garbage | close | half
-	ReplyCode  int16    // error code given for (Topic, Partition) when ReplyKind is ok/code
-	ReplySent  bool
-	APIVersion int16
-}
-
-type c32Broker struct {
-	ln   net.Listener
-	mu   sync.Mutex
-	mode string // ok | code:<n> | no_partition | other_partition | garbage | garbage_hdr | close | half
-	log  []c32Produce
-	wg   sync.WaitGroup
-	rng  *rand.Rand
-}
-
-func newC32Broker(t *testing.T) *c32Broker {
-	ln, err := net.Listen("tcp", "127.0.0.1:0")
-	if err != nil {
-		t.Fatalf("broker listen: %v", err)
-	}
-	b := &c32Broker{ln: ln, mode: "ok", rng: rand.New(rand.NewSource(7))}
-	b.wg.Add(1)
-	go func() {
-		defer b.wg.Done()
-		for {
-			c, err := ln.Accept()
-			if err != nil {
-				return
-			}
-			b.wg.Add(1)
-			go func() {
-				defer b.wg.Done()
-				defer c.Close()
-				b.serve(c)
-			}()
-		}
-	}()
-	return b
-}
-
-func (b *c32Broker) Addr() string { return b.ln.Addr().String() }
-func (b *c32Broker) Close()       { b.ln.Close() }
-
-func (b *c32Broker) Set(mode string) {
-	b.mu.Lock()
-	b.mode = mode
-	b.log = nil
-	b.mu.Unlock()
-}
-
-func (b *c32Broker) Log() []c32Produce {
-	b.mu.Lock()
-	defer b.mu.Unlock()
-	return append([]c32Produce(nil), b.log...)
-}
-
-func (b *c32Broker) serve(c net.Conn) {
-	for {
-		var lb [4]byte
-		if _, err := io.ReadFull(c, lb[:]); err != nil {
-			return
-		}
-		n := int(int32(binary.BigEndian.Uint32(lb[:])))
-		if n < 0 || n > 64*c32MiB {
-			return
-		}
-		payload := make([]byte, n)
-		if _, err := io.ReadFull(c, payload); err != nil {
-			return
-		}
-		entries, corr, version := c32DecodeProduce(payload)
-		b.mu.Lock()
-		mode := b.mode
-		var reply []byte
-		kind := mode
-		code := int16(0)
-		switch {
-		case mode == "ok":
-		case strings.HasPrefix(mode, "code:"):
-			v, _ := strconv.Atoi(mode[5:])
-			code = int16(v)
-			kind = "code"
-		}
-		for i := range entries {
-			entries[i].ReplyKind = kind
-			entries[i].ReplyCode = code
-			entries[i].APIVersion = version
-			entries[i].ReplySent = kind != "close"
-		}
-		// the log entry is complete BEFORE the answer leaves, so the HTTP handler cannot answer its client first
-		b.log = append(b.log, entries...)
-		switch kind {
-		case "ok", "code":
-			reply = c32ProduceResponse(corr, version, entries, code, false, false)
-		case "no_partition":
-			reply = c32ProduceResponse(corr, version, entries, 0, true, false)
-		case "other_partition":
-			reply = c32ProduceResponse(corr, version, entries, 0, false, true)
-		case "garbage":
-			reply = make([]byte, 1+b.rng.Intn(40))
-			b.rng.Read(reply)
-		case "garbage_hdr":
-			reply = binary.BigEndian.AppendUint32(nil, uint32(corr))
-			junk := make([]byte, 1+b.rng.Intn(40))
-			b.rng.Read(junk)
-			reply = append(reply, junk...)
-		}
-		b.mu.Unlock()
-		switch kind {
-		case "close":
-			return
-		case "half":
-			full := c32ProduceResponse(corr, version, entries, 0, false, false)
-			var hb [4]byte
-			binary.BigEndian.PutUint32(hb[:], uint32(len(full)))
-			c.Write(hb[:])
-			c.Write(full[:len(full)/2])
-			return
-		}
-		var hb [4]byte
-		binary.BigEndian.PutUint32(hb[:], uint32(len(reply)))
-		if _, err := c.Write(append(hb[:], reply...)); err != nil {
-			return
-		}
-	}
-}
-
-// c32DecodeProduce reads a produce request (header v1/v2 + body) and returns one
-// entry per topic-partition; a request that is not a well-formed produce gives
-// one entry with DecodeErr set.
-func c32DecodeProduce(p []byte) (entries []c32Produce, corr int32, version int16) {
-	bad := func(msg string) ([]c32Produce, int32, int16) {
-		return []c32Produce{{DecodeErr: msg}}, corr, version
-	}
-	if len(p) < 10 {
-		return bad("short request")
-	}
-	apiKey := int16(binary.BigEndian.Uint16(p[0:]))
-	version = int16(binary.BigEndian.Uint16(p[2:]))
-	corr = int32(binary.BigEndian.Uint32(p[4:]))
-	if apiKey != 0 {
-		return bad(fmt.Sprintf("api key %d is not Produce", apiKey))
-	}
-	pos := 8
-	cl := int(int16(binary.BigEndian.Uint16(p[pos:])))
-	pos += 2
-	if cl > 0 {
-		pos += cl
-	}
-	if version >= 9 {
-		if pos >= len(p) || p[pos] != 0 {
-			return bad("request header v2 tagged fields")
-		}
-		pos++
-	}
-	if pos > len(p) {
-		return bad("request header overruns")
-	}
-	req := kmsg.NewPtrProduceRequest()
-	req.Version = version
-	if err := req.ReadFrom(p[pos:]); err != nil {
-		return bad("produce body: " + err.Error())
-	}
-	for _, t := range req.Topics {
-		for _, part := range t.Partitions {
-			e := c32Produce{Topic: t.Topic, Partition: part.Partition}
-			batches, err := kbatch.DecodeAll(part.Records)
-			if err != nil {
-				e.DecodeErr = "record batch: " + err.Error()
-			} else if len(batches) == 0 {
-				e.DecodeErr = "no record batch"
-			}
-			for _, b := range batches {
-				for _, r := range b.Records {
-					e.Values = append(e.Values, r.Value)
-				}
-			}
-			entries = append(entries, e)
-		}
-	}
-	if len(entries) == 0 {
-		return bad("produce without partitions")
-	}
-	return entries, corr, version
-}
-
-func c32ProduceResponse(corr int32, version int16, entries []c32Produce, code int16, dropPartitions, otherPartition bool) []byte {
-	resp := kmsg.NewPtrProduceResponse()
-	resp.Version = version
-	if !dropPartitions {
-		byTopic := map[string]int{}
-		for _, e := range entries {
-			if e.DecodeErr != "" && e.Topic == "" {
-				continue
-			}
-			idx, ok := byTopic[e.Topic]
-			if !ok {
-				rt := kmsg.NewProduceResponseTopic()
-				rt.Topic = e.Topic
-				resp.Topics = append(resp.Topics, rt)
-				idx = len(resp.Topics) - 1
-				byTopic[e.Topic] = idx
-			}
-			rp := kmsg.NewProduceResponseTopicPartition()
-			rp.Partition = e.Partition
-			if otherPartition {
-				rp.Partition = e.Partition + 1
-			}
-			rp.ErrorCode = code
-			rp.BaseOffset = 42
-			if code != 0 {
-				rp.BaseOffset = -1
-			}
-			resp.Topics[idx].Partitions = append(resp.Topics[idx].Partitions, rp)
-		}
-	}
-	out := binary.BigEndian.AppendUint32(nil, uint32(corr))
-	if version >= 9 {
-		out = append(out, 0) // response header v1: empty tagged fields
-	}
-	return resp.AppendTo(out)
-}
 
 // ---------------------------------------------------------------------------
 // case description
@@ -437,7 +201,7 @@ func TestVerifC32Upload(t *testing.T) {
 
 	logger := slog.New(slog.NewTextHandler(io.Discard, nil))
 	s3f := newVfS3(5 * c32MiB)
-	broker := newC32Broker(t)
+	broker := newVfBroker(t)
 	defer broker.Close()
 
 	var cur atomic.Pointer[lfsModule]
@@ -618,7 +382,7 @@ func TestVerifC32Upload(t *testing.T) {
 			}
 		}
 		// (c) acknowledged without error
-		var match *c32Produce
+		var match *vfProduce
 		for i := range plog {
 			e := &plog[i]
 			if e.DecodeErr != "" || e.Topic != c.Topic || e.Partition != c.Partition {
@@ -669,7 +433,7 @@ func c32Tail(s []string, n int) []string {
 	return s
 }
 
-func c32LogView(l []c32Produce) []map[string]any {
+func c32LogView(l []vfProduce) []map[string]any {
 	var out []map[string]any
 	for _, e := range l {
 		vals := []string{}
